@@ -30,8 +30,59 @@ static const char *const C18_PROG2[C18_MAXT] = {
     "paddb xmm1, xmm2\ninc rax\n",
 };
 
+/* provided by each harness: marks a stretch that the scheduler runs as one step (no-op in the free-running twin) */
+void c18_quiet(int on);
+
+static inline void c18_options(assemblyline_t al, int id) {
+  switch (id) {
+  case 0: asm_set_all(al, STRICT); break;
+  case 1: asm_mov_imm(al, NASM); break;
+  case 2: asm_sib(al, STRICT); break;
+  default: asm_set_all(al, NASM); break;
+  }
+}
+
+/* variant 2: library-managed buffers with history - create, assemble 7 kB (the buffer grows and moves), destroy, create
+ * again, assemble, destroy.  Whatever the library keeps from a destroyed instance (a spare buffer, a pool, a cache) is live
+ * when the second create of one thread meets the create / destroy of another. */
+static inline void c18_body_grow(int id, struct c18_result *r) {
+  enum { LINES = 700, LEN = 28 };
+  char *big = malloc(LINES * LEN + 1);     /* private to this call */
+  for (int k = 0; k < LINES; k++) memcpy(big + LEN * k, "mov rax, 0x1122334455667788\n", LEN);
+  big[LINES * LEN] = 0;
+  memset(r, 0, sizeof *r);
+  assemblyline_t al = asm_create_instance(NULL, 0);
+  r->created = al != NULL;
+  if (!al) {
+    free(big);
+    return;
+  }
+  c18_options(al, id);
+  c18_quiet(1);
+  r->ret1 = asm_assemble_str(al, big);
+  r->off1 = asm_get_offset(al);
+  c18_quiet(0);
+  free(big);
+  asm_destroy_instance(al);
+  al = asm_create_instance(NULL, 0);
+  if (!al) {
+    r->created = 2;
+    return;
+  }
+  c18_options(al, id);
+  r->ret2 = asm_assemble_str(al, C18_PROG[id]);
+  r->off2 = asm_get_offset(al);
+  int n = asm_get_offset(al);
+  if (n > 0 && n <= C18_BUF) memcpy(r->code, asm_get_code(al), (size_t)n);
+  asm_destroy_instance(al);
+}
+
 /* variant 0: create / option / assemble / destroy;  variant 1: + second call (fitting or counting) */
 static inline void c18_body(int id, int variant, uint8_t *buf, struct c18_result *r) {
+  if (variant == 2) {
+    c18_body_grow(id, r);
+    return;
+  }
   memset(r, 0, sizeof *r);
   memset(buf, 0xcc, C18_BUF);
   assemblyline_t al = (id == 1) ? asm_create_instance(NULL, 0) : asm_create_instance(buf, C18_BUF);
